@@ -33,6 +33,11 @@ func main() {
 	case "check":
 		fs.Parse(os.Args[4:])
 		opt := options{workers: *workers, solver: *solver, timeoutMs: *timeout, samplesPer: 2}
+		fs.Visit(func(f *flag.Flag) {
+			if f.Name == "solver" {
+				opt.solverSet = true
+			}
+		})
 		if os.Args[3] == "thorough" {
 			opt.samplesPer = 6
 			if *timeout == 60000 {
@@ -71,7 +76,7 @@ func main() {
 			os.Exit(2)
 		}
 		r := res[0]
-		fmt.Printf("paths=%d outcomes=%v covers=%v queries=%d solver=%.2fs instrs=%d\n", r.Paths, r.ByKind, r.Covers, st.Queries, st.SolverS, st.Instrs)
+		fmt.Printf("paths=%d outcomes=%v covers=%v queries=%d solver=%.2fs instrs=%d cpu=%.1fs\n", r.Paths, r.ByKind, r.Covers, st.Queries, st.SolverS, st.Instrs, r.Elapsed)
 		seen := map[string]int{}
 		for _, o := range r.Bad {
 			s := sig(in, o)
